@@ -215,6 +215,19 @@ type TDictFixed struct {
 	I  int64    `parquet:",dict"`
 	OU [16]byte `parquet:",uuid,dict,optional"`
 }
+
+// TIntTags: Go integer types stored in wider (or explicitly sized) parquet
+// integer columns through the documented int(N) / uint(N) tag options.
+type TIntTags struct {
+	A int32  `parquet:",int(64)"`
+	B uint32 `parquet:",uint(64)"`
+	C int    `parquet:",int(64)"`
+	D *int32 `parquet:",int(64)"`
+	E int32  `parquet:",optional,int(64)"`
+	F int16  `parquet:",int(32)"`
+	G int8   `parquet:",int(16)"`
+	H uint16 `parquet:",uint(32)"`
+}
 type tOptInner struct {
 	X int32
 	Y string
@@ -230,9 +243,17 @@ type RT struct {
 	Type reflect.Type
 	Rows []any // row alphabet (values of the Go type, boxed)
 
-	SchemaOf      func() *parquet.Schema
-	WriteGeneric  func(out io.Writer, opts []parquet.WriterOption, rows []any, cuts []int, flush []bool) error
-	WriteAny      func(out io.Writer, opts []parquet.WriterOption, rows []any, cuts []int, flush []bool) error
+	SchemaOf     func() *parquet.Schema
+	WriteGeneric func(out io.Writer, opts []parquet.WriterOption, rows []any, cuts []int, flush []bool) error
+	WriteAny     func(out io.Writer, opts []parquet.WriterOption, rows []any, cuts []int, flush []bool) error
+	// WriteMixed alternates, batch by batch, between the typed Write and
+	// WriteRows(Deconstruct) on ONE GenericWriter (typedFirst says which starts).
+	WriteMixed func(out io.Writer, rows []any, cuts []int, typedFirst bool) error
+	// GenericBufferPeek fills a GenericBuffer batch by batch and, between
+	// batches, looks at its pages and rows.
+	GenericBufferPeek func(rows []any, cuts []int) (parquet.RowGroup, error)
+	// AppendTo writes more rows to a buffer made by GenericBuffer or RowBuffer.
+	AppendTo      func(rg parquet.RowGroup, rows []any) error
 	ReadAll       func(data []byte) ([]any, error)
 	ReadBatched   func(data []byte, batch int) ([]any, error)
 	GenericBuffer func(rows []any, cuts []int, opts ...parquet.RowGroupOption) (parquet.RowGroup, sort.Interface, error)
@@ -297,6 +318,27 @@ func mkRT[T any](name string) *RT {
 		}
 		return w.Close()
 	}
+	rt.WriteMixed = func(out io.Writer, rows []any, cuts []int, typedFirst bool) error {
+		w := parquet.NewGenericWriter[T](out)
+		schema := parquet.SchemaOf(new(T))
+		ts := unbox[T](rows)
+		for bi, b := range batches(len(ts), cuts) {
+			if (bi%2 == 0) == typedFirst {
+				if n, err := w.Write(ts[b[0]:b[1]]); err != nil || n != b[1]-b[0] {
+					return fmt.Errorf("Write: %d, %v", n, err)
+				}
+			} else {
+				var prs []parquet.Row
+				for i := b[0]; i < b[1]; i++ {
+					prs = append(prs, schema.Deconstruct(nil, &ts[i]))
+				}
+				if n, err := w.WriteRows(prs); err != nil || n != len(prs) {
+					return fmt.Errorf("WriteRows: %d, %v", n, err)
+				}
+			}
+		}
+		return w.Close()
+	}
 	rt.WriteAny = func(out io.Writer, opts []parquet.WriterOption, rows []any, cuts []int, flush []bool) error {
 		opts = append([]parquet.WriterOption{parquet.SchemaOf(new(T))}, opts...)
 		w := parquet.NewWriter(out, opts...)
@@ -349,6 +391,47 @@ func mkRT[T any](name string) *RT {
 		}
 		return b, b, nil
 	}
+	rt.GenericBufferPeek = func(rows []any, cuts []int) (parquet.RowGroup, error) {
+		b := parquet.NewGenericBuffer[T]()
+		ts := unbox[T](rows)
+		bs := batches(len(ts), cuts)
+		for bi, r := range bs {
+			if _, err := b.Write(ts[r[0]:r[1]]); err != nil {
+				return nil, err
+			}
+			if bi == len(bs)-1 {
+				break
+			}
+			// observe the buffer between writes: pages of every column and all rows
+			for _, c := range b.ColumnBuffers() {
+				if p := c.Page(); p != nil {
+					_ = p.NumValues()
+				}
+			}
+			rr := b.Rows()
+			buf := make([]parquet.Row, 7)
+			for {
+				_, err := rr.ReadRows(buf)
+				if err != nil {
+					break
+				}
+			}
+			rr.Close()
+		}
+		return b, nil
+	}
+	rt.AppendTo = func(rg parquet.RowGroup, rows []any) error {
+		w, ok := rg.(interface{ Write([]T) (int, error) })
+		if !ok {
+			return fmt.Errorf("%T has no typed Write", rg)
+		}
+		ts := unbox[T](rows)
+		n, err := w.Write(ts)
+		if err == nil && n != len(ts) {
+			err = fmt.Errorf("Write returned %d for %d rows", n, len(ts))
+		}
+		return err
+	}
 	rt.SortingWrite = func(out io.Writer, rows []any, cuts []int, sortRun int64, opts ...parquet.WriterOption) error {
 		w := parquet.NewSortingWriter[T](out, sortRun, opts...)
 		ts := unbox[T](rows)
@@ -379,7 +462,7 @@ var rowTypes = []*RT{
 	mkRT[TNested]("Nested"), mkRT[TSliceOfStruct]("SliceOfStruct"), mkRT[TListOfStruct]("ListOfStruct"),
 	mkRT[TListOfList]("ListOfList"), mkRT[TMap]("Map"), mkRT[TMapOfStruct]("MapOfStruct"),
 	mkRT[TMapOfSlice]("MapOfSlice"), mkRT[TEmbedded]("Embedded"), mkRT[TDeep]("Deep"), mkRT[TBoolRuns]("BoolRuns"),
-	mkRT[TStrings]("Strings"), mkRT[TFloatsOnly]("FloatsOnly"), mkRT[TPtrStructList]("PtrStructList"), mkRT[TDictNested]("DictNested"), mkRT[TOptStruct]("OptStruct"), mkRT[TEmbeddedMid]("EmbeddedMid"), mkRT[TDictFixed]("DictFixed"),
+	mkRT[TStrings]("Strings"), mkRT[TFloatsOnly]("FloatsOnly"), mkRT[TPtrStructList]("PtrStructList"), mkRT[TDictNested]("DictNested"), mkRT[TOptStruct]("OptStruct"), mkRT[TEmbeddedMid]("EmbeddedMid"), mkRT[TDictFixed]("DictFixed"), mkRT[TIntTags]("IntTags"),
 }
 
 // ---------------------------------------------------------------------------
@@ -392,6 +475,48 @@ var (
 )
 
 const maxAlpha = 7 // per nested node
+
+var emptyWithData = strings.Repeat("z", 3)[:0]
+
+// emptyWithDataMark stands for emptyWithData in the alphabets: the data
+// pointer of an empty string does not survive boxing into an interface
+// (reflect.ValueOf), so rows are patched in place once they are built.
+const emptyWithDataMark = "\x00empty-with-data\x00"
+
+func patchEmptyWithData(v reflect.Value) {
+	switch v.Kind() {
+	case reflect.String:
+		if v.CanAddr() && v.String() == emptyWithDataMark {
+			*(*string)(v.Addr().UnsafePointer()) = emptyWithData
+		}
+	case reflect.Pointer:
+		if !v.IsNil() {
+			patchEmptyWithData(v.Elem())
+		}
+	case reflect.Struct:
+		for i := 0; i < v.NumField(); i++ {
+			patchEmptyWithData(v.Field(i))
+		}
+	case reflect.Slice, reflect.Array:
+		for i := 0; i < v.Len(); i++ {
+			patchEmptyWithData(v.Index(i))
+		}
+	case reflect.Map:
+		for _, k := range v.MapKeys() {
+			nv := reflect.New(v.Type().Elem()).Elem()
+			nv.Set(v.MapIndex(k))
+			patchEmptyWithData(nv)
+			if k.Kind() == reflect.String && k.String() == emptyWithDataMark {
+				v.SetMapIndex(k, reflect.Value{})
+				k = reflect.ValueOf("").Convert(k.Type())
+				if v.MapIndex(k).IsValid() {
+					continue
+				}
+			}
+			v.SetMapIndex(k, nv)
+		}
+	}
+}
 
 func leafAlphabet(t reflect.Type) []reflect.Value {
 	v := func(xs ...any) []reflect.Value {
@@ -442,7 +567,9 @@ func leafAlphabet(t reflect.Type) []reflect.Value {
 		return v(float64(0), float64(1.5), math.Copysign(0, -1), math.Inf(-1), math.Inf(1),
 			math.Float64frombits(0x7ff8000000000000), math.Float64frombits(0x7ff4000000000001), math.MaxFloat64, math.Float64frombits(1))
 	case reflect.String:
-		return v("", "a", "ab", strings.Repeat("a", 9)+"b", strings.Repeat("\xff", 40), strings.Repeat("xyz", 100), "PAR1")
+		// emptyWithData: an empty string whose data pointer is not nil (what
+		// TrimSpace, Cut, s[:0] return) - still the zero value of the type
+		return v("", "a", emptyWithDataMark, "ab", strings.Repeat("a", 9)+"b", strings.Repeat("\xff", 40), strings.Repeat("xyz", 100), "PAR1")
 	}
 	return nil
 }
@@ -536,9 +663,16 @@ func structAlphabet(t reflect.Type) []reflect.Value {
 		return v
 	}
 	out := []reflect.Value{mk(0, -1, 0), mk(1, -1, 0)}
-	for f := 0; f < n; f++ {
-		for alt := 2; alt < len(fa[f]); alt++ {
-			out = append(out, mk(0, f, alt))
+	// round-robin over the fields so that a cap on the number of rows keeps
+	// the first alternatives of every field rather than all alternatives of
+	// the first fields
+	for alt, more := 2, true; more; alt++ {
+		more = false
+		for f := 0; f < n; f++ {
+			if alt < len(fa[f]) {
+				out = append(out, mk(0, f, alt))
+				more = true
+			}
 		}
 	}
 	for f := 0; f < n; f++ {
@@ -555,11 +689,12 @@ func structAlphabet(t reflect.Type) []reflect.Value {
 
 func rowAlphabet(t reflect.Type) []any {
 	vals := structAlphabet(t)
-	if len(vals) > 40 {
-		vals = vals[:40]
+	if len(vals) > 48 {
+		vals = vals[:48]
 	}
 	out := make([]any, len(vals))
 	for i, v := range vals {
+		patchEmptyWithData(v)
 		out[i] = v.Interface()
 	}
 	return out
